@@ -7,6 +7,8 @@
 #![allow(dead_code)]
 mod evidence;
 mod interp;
+mod jgen;
+mod persist;
 mod model;
 mod ops;
 mod props;
